@@ -19,7 +19,7 @@ p = subprocess.run(cmd, cwd=repo, env=env, stdout=subprocess.PIPE, stderr=subpro
 passed = set()
 for tc in ET.parse(xml).getroot().iter("testcase"):
     if not any(ch.tag in ("failure", "error", "skipped") for ch in tc):
-        passed.add(tc.get("classname") + "::" + tc.get("name"))
+        passed.add((tc.get("classname") + "::" + tc.get("name")).replace(os.path.realpath(repo), "/repo"))
 os.unlink(xml)
 missing = sorted(want - passed)
 print(p.stdout.strip().splitlines()[-1])
